@@ -24,6 +24,20 @@ KINDS_GREPO = [("file", 4), ("str", 4), ("strfile", 1), ("preload", 2)]
 KINDS_URI = [("file", 6), ("strfile", 2), ("str", 1)]
 
 
+def gen_classes(rng, case):
+    """metamodel configuration of a case: which rules of the language are user classes (none in half of the
+    cases; otherwise mostly the root rule, whose objects are the models the repositories hold), and how they
+    are handed to the metamodel"""
+    if rng.chance(0.4):
+        return case
+    names = [nm for nm in c17.USER_RULES if rng.chance(0.85 if nm == "Model" else 0.35)]
+    if names:
+        case["classes"] = names
+        if rng.chance(0.25):
+            case["classes_via"] = "callable"
+    return case
+
+
 def closure_from(case, step, roots, cached):
     """models a load constructs when it starts at `roots` (file indices / STR): reachable
     through files that are not cached"""
@@ -177,19 +191,27 @@ class Prop(c17.Prop):
                 "Repo.C18_history_cache_stays", "Repo.C18_history_fail_step", "Repo.C18_preload_repair_succeeds"]
     QUICK_CASES = 260
     THOROUGH_CASES = 4000
-    RULE = ("import graphs as in C17 (<=6 files, 6 providers, global repository on in 9 of 10 graphs); for each graph the "
+    RULE = ("import graphs as in C17 (<=6 files, 6 providers, global repository on in 9 of 10 graphs), metamodel "
+            "configuration: every subset of the rules {Model, Import, Elem, Ref} as user classes (none in 4 of 10 cases, "
+            "the root rule in 85 % of the others; as a list or through a callable); for each graph the "
             "(failing text, phase) pairs over the files and the model without file name x {syntax error, unresolvable "
             "reference, object processor, model processor, missing file} are enumerated; the failing load and its "
             "repaired reload enter textX through model_from_file / model_from_str with file name / model_from_str "
             "without file name (registered as anonymousN) / GlobalRepo.load_models_in_model_repo, chosen so that the "
-            "load constructs the failing text; history = optional warm-up loads (any entry point), the failing load, "
+            "load constructs the failing text, in 6 of 10 cases the entry farthest (import levels) from it; plus the complete "
+            "matrix user-class configuration x depth of the failing file in an import chain x phase; history = optional warm-up loads (any entry point), the failing load, "
             "the reload after the correction, sometimes one more load; non-trivial = a load fails after it has read "
             ">=2 files or with models of earlier loads cached, and a later load of the history succeeds")
     MODELLED = c17.Prop.MODELLED + ("; failure paths: model.py:988-993,1007-1009 handlers, "
                                     "_remove_all_affected_models_in_construction, metamodel._call_model_processors (fix), "
                                     "ModelRepository.remove_model for models under invented names (Repo.loadStr), failing "
-                                    "GlobalRepo.load_models_in_model_repo (Repo.preload)")
+                                    "GlobalRepo.load_models_in_model_repo (Repo.preload); user classes (attribute store of "
+                                    "the parser, model.py get_model_from_str / _end_model_construction / "
+                                    "_abort_model_construction) are an implementation configuration: the model has no "
+                                    "counterpart, the same Lean run is the reference for every configuration")
     ASSUMPTIONS = c17.Prop.ASSUMPTIONS + [
+        "which rules of the language are user classes does not change what a load does to the repositories (checked: "
+        "every configuration is compared with the same model run and judged by the same oracle)",
         "faults are raised by the file itself (syntax, reference) or by processors that fail for the models of marked "
         "files; 'corrected' = the next step's files no longer carry the fault",
         "every load_model(is_main_model=True) of an explicit pre-load is a load of its own: the main loads a failing "
@@ -216,6 +238,66 @@ class Prop(c17.Prop):
         else:
             roots = [main]
         return victim in closure_from(case, step, roots, set())
+
+    @staticmethod
+    def depth(case, kind, main, files, text, victim):
+        """import distance from the roots of a load through this entry point to the victim (nothing cached):
+        the number of import levels (nested loads, each with its own parser and error handler) the failure
+        has to pass on its way out is at least this"""
+        step = {"main": main, "files": files, "kind": kind, "text": text}
+        if kind == "str":
+            level = [STR]
+        elif kind == "preload":
+            level = [j for st in active_imports_any(case, step, STR) for j in st or []]
+        else:
+            level = [main]
+        seen, d = set(level), 0
+        while level:
+            if victim in level:
+                return d
+            nxt = []
+            for i in level:
+                for st in active_imports(case, step, i):
+                    for j in st or []:
+                        if j not in seen:
+                            seen.add(j)
+                            nxt.append(j)
+            level, d = nxt, d + 1
+        return -1
+
+    def gen_config_family(self, tier):
+        """complete matrix metamodel configuration (which rules are user classes, how they are handed over) x
+        depth of the failing file in an import chain x phase, on a repository that already caches a bystander
+        file; followed by the repaired reload and a load of the middle of the chain.  Quick: chain of 3 files,
+        failing file at depth 1 and 2, two configurations (20 cases); thorough: chains of 2-4 files, every
+        position, 4 configurations x 2 ways x global repository on / off (providers in rotation)."""
+        provs = ["plain_uri", "fqn_uri", "rrel", "plain_search"]
+        if tier == "quick":
+            combos = [(3, v, cl, "list", None, True) for v in (1, 2) for cl in (["Model"], list(c17.USER_RULES))]
+        else:
+            combos = [(n, v, cl, via, pv, gl) for n in (2, 3, 4) for v in range(n)
+                      for cl in ([], ["Model"], ["Import", "Elem", "Ref"], list(c17.USER_RULES))
+                      for via in (("list", "callable") if cl else ("list",)) for pv in (None,) for gl in (True, False)]
+        k = 0
+        for n, victim, classes, via, prov, glob in combos:
+            tab = [{"imports": [{"pat": f"f{i + 1}.m", "expect": [i + 1]}] if i < n - 1 else [], "defs": [c17.NAMES[i]],
+                    "refs": [c17.NAMES[i]] + ([c17.NAMES[i + 1]] if i < n - 1 else [])} for i in range(n)]
+            tab.append({"imports": [], "defs": [c17.NAMES[n]], "refs": []})
+            for phase in PHASES:
+                if phase == "absent" and victim == 0:
+                    continue
+                k += 1
+                bad = copy.deepcopy(tab)
+                bad[victim][phase] = True
+                case = {"provider": prov or provs[k % len(provs)], "glob": glob, "builtin": [],
+                        "files": c17.graph_files(n + 1), "exhaustive": True,
+                        "steps": [{"main": n, "files": tab}, {"main": 0, "files": bad}, {"main": 0, "files": tab},
+                                  {"main": min(1, n - 1), "files": tab}]}
+                if classes:
+                    case["classes"] = list(classes)
+                    if via != "list":
+                        case["classes_via"] = via
+                yield case
 
     def gen_exhaustive(self):
         # complete: every import graph over <=3 files x every failing file x phase
@@ -255,6 +337,7 @@ class Prop(c17.Prop):
     def gen(self, rng, n, tier):
         if tier == "thorough":
             yield from self.gen_exhaustive()
+        yield from self.gen_config_family(tier)
         made = 0
         while made < n:
             base = self.gen_case(rng, 0.0, nsteps=1)
@@ -281,6 +364,11 @@ class Prop(c17.Prop):
                     if not rng.chance(0.1):
                         cands = [(kd, m) for kd, _ in kinds for m in (range(nf) if kd in ("file", "strfile") else [main])
                                  if self.reaches(case, kd, m, files0, text0, victim)]
+                        if cands and rng.chance(0.6):
+                            # every depth of the import chain: prefer the entries farthest from the victim (the
+                            # failure passes the handlers of all import levels in between)
+                            ds = [self.depth(case, kd, m, files0, text0, victim) for kd, m in cands]
+                            cands = [c for c, d in zip(cands, ds) if d == max(ds)]
                         same = [c for c in cands if c[0] == kind]
                         if same:
                             kind, main = rng.choice(same)
@@ -306,7 +394,7 @@ class Prop(c17.Prop):
                     steps.append(self.mk_step(rng.weighted(kinds), rng.below(nf), copy.deepcopy(files0), text0))
                 case["steps"] = steps
                 made += 1
-                yield case
+                yield gen_classes(rng, case)
 
     def oracle(self, case, obs):
         f = oracle_c18(case, obs)
